@@ -27,32 +27,6 @@ def Approved (cfg : Cfg) (hist : List (Nat × Ev)) (c : Nat) (u : List Char) : P
 def JidOf (cfg : Cfg) (u j : List Char) : Prop :=
   j = mkBare u cfg.domain ∨ ∃ r, j = withRes (mkBare u cfg.domain) r
 
-/-- bind, session and message/presence/iq: the `jabber:client` elements -/
-def isClientStanza : Ev → Bool
-  | .bind _ | .session | .stanza _ => true
-  | _ => false
-
-/-- everything the client sends (as opposed to the checker finishing a reply) -/
-def isElement : Ev → Bool
-  | .deliver _ => false
-  | _ => true
-
-/-- either fixes/C16-preauth.diff is applied, or the client does not send bind/session/stanzas while the
-server-side jid of its connection is still empty -/
-def PreauthSafe (cfg : Cfg) (s : Server) (op : Nat × Ev) : Prop :=
-  cfg.fixPreauth = true ∨ (isClientStanza op.2 = true → (s.conns op.1).jid ≠ [])
-
-/-- either fixes/C16-reply-binding.diff is applied, or no element of the client is processed while a checker
-reply for its connection is still outstanding (what happens when every reply finishes before the next
-element is read) -/
-def ReplySafe (cfg : Cfg) (s : Server) (op : Nat × Ev) : Prop :=
-  cfg.fixReply = true ∨ (isElement op.2 = true → (s.conns op.1).pending = [])
-
-/-- `P` holds of every (state, operation) pair met while running `ops` from `s` -/
-def Along (cfg : Cfg) (P : Server → Nat × Ev → Prop) : Server → List (Nat × Ev) → Prop
-  | _, [] => True
-  | s, op :: ops => P s op ∧ Along cfg P (step cfg s op).1 ops
-
 /-- outputs that presuppose an authenticated sender `c`: a stanza handed to routing, delivered or answered,
 a bound resource, a bind or session result -/
 def NeedsAuth (c : Nat) : Out → Prop
@@ -153,8 +127,7 @@ theorem quiet_failClose (x c : Conn) (v2 : Bool) (cond : Cond) (hj : c.jid = x.j
 theorem quiet_ubRes (x c : Conn) (hj : c.jid = x.jid) : Quiet x (ubRes c) := by
   simp [Quiet, ubRes, hj, Benign]
 
-theorem dropPending_jid (cfg : Cfg) (c : Conn) : (dropPending cfg c).jid = c.jid := by
-  unfold dropPending; split <;> rfl
+theorem dropPending_jid (c : Conn) : (dropPending c).jid = c.jid := rfl
 
 theorem checkCredentials_jid (cfg : Cfg) (c : Conn) (s : Sasl) (p : Payload) : (checkCredentials cfg c s p).jid = c.jid := by
   unfold checkCredentials
@@ -285,24 +258,19 @@ theorem shape_gate (x : Conn) (r : CRes) (h : Quiet x r ∨ AuthHead r) : Quiet 
     · exact h
     · exact Or.inl ⟨rfl, by simp [idle]⟩
 
-theorem quiet_clientGate_preauth (cfg : Cfg) (x : Conn) (r : CRes) (hf : cfg.fixPreauth = true) (hj : x.jid = []) :
-    Quiet x (clientGate cfg x r) := by
-  simp only [clientGate, hf, hj, and_self, if_true]
+theorem quiet_clientGate_preauth (x : Conn) (r : CRes) (hj : x.jid = []) :
+    Quiet x (clientGate x r) := by
+  simp only [clientGate, hj, if_true]
   apply quiet_disconnect _ _ _ rfl
   intro o ho; simp at ho; subst ho; trivial
 
-/-- one step of a connection, when the pre-authentication safety condition holds: quiet, or it starts with an
-authentication record, or the jid was already set -/
-theorem shape_connStep (cfg : Cfg) (fresh : List Char) (x : Conn) (ev : Ev)
-    (hsafe : cfg.fixPreauth = true ∨ (isClientStanza ev = true → x.jid ≠ [])) :
+/-- one step of a connection: quiet, or it starts with an authentication record, or the jid was already set -/
+theorem shape_connStep (cfg : Cfg) (fresh : List Char) (x : Conn) (ev : Ev) :
     Quiet x (connStep cfg fresh x ev) ∨ AuthHead (connStep cfg fresh x ev) ∨ x.jid ≠ [] := by
   by_cases hj : x.jid = []
   case neg => exact Or.inr (Or.inr hj)
-  have stanzaCase : ∀ r, isClientStanza ev = true → Quiet x (gate x (clientGate cfg x r)) := by
-    intro r hev
-    rcases hsafe with hf | hs
-    · exact quiet_gate _ _ (quiet_clientGate_preauth cfg x r hf hj)
-    · exact absurd hj (hs hev)
+  have stanzaCase : ∀ r, Quiet x (gate x (clientGate x r)) :=
+    fun r => quiet_gate _ _ (quiet_clientGate_preauth x r hj)
   unfold connStep
   split
   · exact Or.inl (quiet_idle x)
@@ -327,9 +295,9 @@ theorem shape_connStep (cfg : Cfg) (fresh : List Char) (x : Conn) (ev : Ev)
       · exact ⟨rfl, by intro o ho; simp at ho; subst ho; trivial⟩
       · exact quiet_idle x
     | closeStream => exact Or.inl (quiet_gate _ _ (quiet_disconnect _ _ _ rfl (by simp)))
-    | bind res => exact Or.inl (stanzaCase _ rfl)
-    | session => exact Or.inl (stanzaCase _ rfl)
-    | stanza st => exact Or.inl (stanzaCase _ rfl)
+    | bind res => exact Or.inl (stanzaCase _)
+    | session => exact Or.inl (stanzaCase _)
+    | stanza st => exact Or.inl (stanzaCase _)
 
 
 
@@ -356,10 +324,10 @@ theorem gate_outs (x : Conn) (r : CRes) (o : COut) (h : o ∈ (gate x r).outs) :
   cases hs : x.stuck <;> cases ho : x.opened <;> simp [gate, hs, ho, idle] at h ⊢
   exact h
 
-theorem clientGate_outs_emit (cfg : Cfg) (x : Conn) (r : CRes) (st : Stanza) (h : COut.emit st ∈ (clientGate cfg x r).outs) :
-    COut.emit st ∈ r.outs ∧ clientGate cfg x r = r := by
+theorem clientGate_outs_emit (x : Conn) (r : CRes) (st : Stanza) (h : COut.emit st ∈ (clientGate x r).outs) :
+    COut.emit st ∈ r.outs ∧ clientGate x r = r := by
   unfold clientGate at h ⊢
-  by_cases hc : cfg.fixPreauth = true ∧ x.jid = []
+  by_cases hc : x.jid = []
   · simp [hc, disconnect] at h
   · simp only [hc, if_false] at h ⊢
     exact ⟨h, trivial⟩
@@ -393,15 +361,15 @@ theorem connStep_emit (cfg : Cfg) (fresh : List Char) (x : Conn) (ev : Ev) (st :
       have h1 := (gate_outs _ _ _ h).1
       simp [disconnect] at h1
     | bind res =>
-      have h1 := (clientGate_outs_emit _ _ _ _ (gate_outs _ _ _ h).1).1
+      have h1 := (clientGate_outs_emit _ _ _ (gate_outs _ _ _ h).1).1
       simp [bindStep] at h1
     | session =>
-      have h1 := (clientGate_outs_emit _ _ _ _ (gate_outs _ _ _ h).1).1
+      have h1 := (clientGate_outs_emit _ _ _ (gate_outs _ _ _ h).1).1
       simp at h1
     | stanza st0 =>
       have hg := gate_outs _ _ _ h
-      have hcg := clientGate_outs_emit _ _ _ _ hg.1
-      show (st.sender = x.jid ∨ st.sender = bareOf x.jid) ∧ (gate x (clientGate cfg x (clientStanza cfg x st0))).conn = x
+      have hcg := clientGate_outs_emit _ _ _ hg.1
+      show (st.sender = x.jid ∨ st.sender = bareOf x.jid) ∧ (gate x (clientGate x (clientStanza cfg x st0))).conn = x
       rw [hg.2, hcg.2]
       have h1 := hcg.1
       unfold clientStanza at h1 ⊢
@@ -634,12 +602,12 @@ theorem step_outs_authHead (cfg : Cfg) (s : Server) (op : Nat × Ev)
   exact ⟨j, rest, hr⟩
 
 theorem authLog_step (cfg : Cfg) (s : Server) (L : List Out) (op : Nat × Ev)
-    (hinv : AuthLog s L) (hsafe : PreauthSafe cfg s op) : AuthLog (step cfg s op).1 (L ++ (step cfg s op).2) := by
+    (hinv : AuthLog s L) : AuthLog (step cfg s op).1 (L ++ (step cfg s op).2) := by
   intro c hj
   have hc := step_conns cfg s op c
   by_cases hcop : c = op.1
   · rw [hc.1 hcop] at hj
-    rcases shape_connStep cfg (freshRes s.gen) (s.conns op.1) op.2 hsafe with hq | ha | hx
+    rcases shape_connStep cfg (freshRes s.gen) (s.conns op.1) op.2 with hq | ha | hx
     · rw [hq.1] at hj
       obtain ⟨j, hm⟩ := hinv op.1 hj
       exact ⟨j, by rw [hcop]; simp [hm]⟩
@@ -654,14 +622,14 @@ theorem authLog_step (cfg : Cfg) (s : Server) (L : List Out) (op : Nat × Ev)
 /-- within one step: an output that presupposes authentication is preceded, in the log so far plus the
 earlier outputs of this very step, by an authentication record of that connection -/
 theorem step_needsAuth (cfg : Cfg) (s : Server) (L : List Out) (op : Nat × Ev)
-    (hinv : AuthLog s L) (hsafe : PreauthSafe cfg s op)
+    (hinv : AuthLog s L)
     (pre : List Out) (x : Out) (post : List Out) (c : Nat)
     (hsplit : (step cfg s op).2 = pre ++ x :: post) (hn : NeedsAuth c x) : ∃ j, Out.authed c j ∈ L ++ pre := by
   have hx : x ∈ (step cfg s op).2 := by rw [hsplit]; simp
   have hx' := hx
   unfold step at hx'
   obtain ⟨hc, g, hg, hgg⟩ := applyOuts_needsAuth cfg op.1 x c hn _ _ hx'
-  rcases shape_connStep cfg (freshRes s.gen) (s.conns op.1) op.2 hsafe with hq | ha | hj
+  rcases shape_connStep cfg (freshRes s.gen) (s.conns op.1) op.2 with hq | ha | hj
   · exact absurd hgg (benign_not_guarded (hq.2 g hg))
   · obtain ⟨j, rest, hr⟩ := step_outs_authHead cfg s op ha
     rw [hr] at hsplit
@@ -677,29 +645,29 @@ theorem step_needsAuth (cfg : Cfg) (s : Server) (L : List Out) (op : Nat × Ev)
     exact ⟨j, by rw [hc]; simp [hm]⟩
 
 theorem run_needsAuth (cfg : Cfg) : ∀ (ops : List (Nat × Ev)) (s : Server) (L : List Out),
-    AuthLog s L → Along cfg (PreauthSafe cfg) s ops →
+    AuthLog s L →
     ∀ (pre : List Out) (x : Out) (post : List Out) (c : Nat),
       (run cfg s ops).2 = pre ++ x :: post → NeedsAuth c x → ∃ j, Out.authed c j ∈ L ++ pre := by
   intro ops
   induction ops with
-  | nil => intro s L _ _ pre x post c h; simp [run] at h
+  | nil => intro s L _ pre x post c h; simp [run] at h
   | cons op ops ih =>
-    intro s L hinv hal pre x post c hsplit hn
+    intro s L hinv pre x post c hsplit hn
     simp only [run] at hsplit
-    have hinv' := authLog_step cfg s L op hinv hal.1
+    have hinv' := authLog_step cfg s L op hinv
     rcases List.append_eq_append_iff.mp hsplit with ⟨as, hpre, hrest⟩ | ⟨bs, hstep, hrest⟩
-    · obtain ⟨j, hm⟩ := ih _ _ hinv' hal.2 as x post c hrest hn
+    · obtain ⟨j, hm⟩ := ih _ _ hinv' as x post c hrest hn
       exact ⟨j, by rw [hpre]; simpa [List.append_assoc] using hm⟩
     · cases bs with
       | nil =>
         simp only [List.nil_append] at hrest
         simp only [List.append_nil] at hstep
-        obtain ⟨j, hm⟩ := ih _ _ hinv' hal.2 [] x post c hrest.symm hn
+        obtain ⟨j, hm⟩ := ih _ _ hinv' [] x post c hrest.symm hn
         exact ⟨j, by rw [← hstep]; simpa using hm⟩
       | cons b bs' =>
         simp only [List.cons_append, List.cons.injEq] at hrest
         rw [← hrest.1] at hstep
-        exact step_needsAuth cfg s L op hinv hal.1 pre x bs' c hstep hn
+        exact step_needsAuth cfg s L op hinv pre x bs' c hstep hn
 
 
 
@@ -776,20 +744,11 @@ theorem saslOk_plain {A : List Char → Prop} (s : Sasl) (h : s.mech = .plain) :
   step1 := fun hd => by rw [h] at hd; cases hd
   pos := fun hn => absurd h hn
 
-theorem dropPending_pending (cfg : Cfg) (x y : Conn) (hy : y.pending = x.pending)
-    (hrep : cfg.fixReply = true ∨ x.pending = []) : (dropPending cfg y).pending = [] := by
-  unfold dropPending
-  rcases hrep with h | h
-  · simp [h]
-  · split
-    · rfl
-    · rw [hy, h]
+theorem dropPending_pending (y : Conn) : (dropPending y).pending = [] := rfl
 
-theorem dropPending_fields (cfg : Cfg) (y : Conn) :
-    (dropPending cfg y).jid = y.jid ∧ (dropPending cfg y).sasl = y.sasl ∧ (dropPending cfg y).closed = y.closed := by
-  unfold dropPending; split <;> exact ⟨rfl, rfl, rfl⟩
-
-
+theorem dropPending_fields (y : Conn) :
+    (dropPending y).jid = y.jid ∧ (dropPending y).sasl = y.sasl ∧ (dropPending y).closed = y.closed :=
+  ⟨rfl, rfl, rfl⟩
 
 section handlers
 variable {cfg : Cfg} {A : List Char → Prop} {H : Payload → Prop}
@@ -803,12 +762,11 @@ theorem ConnInv.of_no_pending {y : Conn} (hp : y.pending = [])
       dg_ok := fun res u sec hm => by rw [hp] at hm; cases hm
       sasl_ok := hs }
 
-theorem inv_openStream (x : Conn) (to : List Char) (h : ConnInv cfg A H x)
-    (hrep : cfg.fixReply = true ∨ x.pending = []) : ConnInv cfg A H (openStream cfg x to).conn := by
+theorem inv_openStream (x : Conn) (to : List Char) (h : ConnInv cfg A H x) : ConnInv cfg A H (openStream cfg x to).conn := by
   unfold openStream
   simp only []
-  have hf := dropPending_fields cfg { x with opened := true, sasl := none }
-  have hp := dropPending_pending cfg x { x with opened := true, sasl := none } rfl hrep
+  have hf := dropPending_fields { x with opened := true, sasl := none }
+  have hp := dropPending_pending { x with opened := true, sasl := none }
   split
   · apply inv_disconnect; rw [hf.1]; exact h.jid_ok
   · apply ConnInv.of_no_pending hp
@@ -829,12 +787,12 @@ theorem fresh_respond (m : Mech) (p : Payload) :
   · simp [Sasl.respond, respondAnon]
 
 theorem inv_authStep (x : Conn) (v2 : Bool) (m : List Char) (p : Payload) (b : Bool) (h : ConnInv cfg A H x)
-    (hrep : cfg.fixReply = true ∨ x.pending = []) (hev : H p) : ConnInv cfg A H (authStep cfg x v2 m p b).conn := by
+    (hev : H p) : ConnInv cfg A H (authStep cfg x v2 m p b).conn := by
   unfold authStep
   simp only []
-  have hf := dropPending_fields cfg { x with v2 := v2, s2req := if v2 then some b else none }
-  have hp := dropPending_pending cfg x { x with v2 := v2, s2req := if v2 then some b else none } rfl hrep
-  generalize dropPending cfg { x with v2 := v2, s2req := if v2 then some b else none } = c0 at *
+  have hf := dropPending_fields { x with v2 := v2, s2req := if v2 then some b else none }
+  have hp := dropPending_pending { x with v2 := v2, s2req := if v2 then some b else none }
+  generalize dropPending { x with v2 := v2, s2req := if v2 then some b else none } = c0 at *
   have hjid : c0.jid ≠ [] → ∃ u, A u ∧ JidOf cfg u c0.jid := by rw [hf.1]; exact h.jid_ok
   split
   · exact inv_disconnect _ _ hjid
@@ -1124,21 +1082,15 @@ theorem inv_gate (x : Conn) (r : CRes) (h : ConnInv cfg A H x) (hr : ConnInv cfg
     · exact h.congr rfl (fun _ he => he) rfl rfl
 
 theorem inv_clientGate (x : Conn) (r : CRes) (h : ConnInv cfg A H x)
-    (hr : x.jid ≠ [] → ConnInv cfg A H r.conn)
-    (hpre : cfg.fixPreauth = true ∨ x.jid ≠ []) : ConnInv cfg A H (clientGate cfg x r).conn := by
+    (hr : x.jid ≠ [] → ConnInv cfg A H r.conn) : ConnInv cfg A H (clientGate x r).conn := by
   unfold clientGate
   split
   · exact inv_disconnect _ _ h.jid_ok
   · rename_i hc
-    apply hr
-    rcases hpre with hf | hj
-    · intro hj; exact hc ⟨hf, hj⟩
-    · exact hj
+    exact hr hc
 
-/-- **one connection step preserves the invariant**, provided the two safety conditions hold for this step -/
+/-- **one connection step preserves the invariant** -/
 theorem inv_connStep (fresh : List Char) (x : Conn) (ev : Ev) (h : ConnInv cfg A H x)
-    (hpre : cfg.fixPreauth = true ∨ (isClientStanza ev = true → x.jid ≠ []))
-    (hrep : cfg.fixReply = true ∨ (isElement ev = true → x.pending = []))
     (hev : ∀ p, ev.payload = some p → H p)
     (hA1 : ∀ u p, H (.creds u p) → cfg.check u p = .ok → A u)
     (hA2 : ∀ u sec q, H (.dresp u sec q) → cfg.digestOf u = .digest sec → A u) :
@@ -1154,8 +1106,8 @@ theorem inv_connStep (fresh : List Char) (x : Conn) (ev : Ev) (h : ConnInv cfg A
       simp only []
       split
       · exact h
-      · exact inv_openStream x to h (hrep.imp id (fun f => f rfl))
-    | auth v2 m p b => exact inv_gate x _ h (inv_authStep x v2 m p b h (hrep.imp id (fun f => f rfl)) (hev p rfl))
+      · exact inv_openStream x to h
+    | auth v2 m p b => exact inv_gate x _ h (inv_authStep x v2 m p b h (hev p rfl))
     | response v2 p => exact inv_gate x _ h (inv_responseStep fresh x v2 p h hx (hev p rfl))
     | abort v2 =>
       apply inv_gate x _ h
@@ -1165,16 +1117,16 @@ theorem inv_connStep (fresh : List Char) (x : Conn) (ev : Ev) (h : ConnInv cfg A
     | closeStream => exact inv_gate x _ h (inv_disconnect _ _ h.jid_ok)
     | bind res =>
       apply inv_gate x _ h
-      apply inv_clientGate x _ h _ (hpre.imp id (fun f => f rfl))
+      apply inv_clientGate x _ h
       intro hj
       obtain ⟨u, hu, hjid⟩ := h.jid_ok hj
       exact ⟨fun _ => ⟨u, hu, hjid.bind _⟩, fun hcl => (h.live hx).congr (fun _ he => he) rfl⟩
     | session =>
       apply inv_gate x _ h
-      exact inv_clientGate x _ h (fun _ => h) (hpre.imp id (fun f => f rfl))
+      exact inv_clientGate x _ h (fun _ => h)
     | stanza st =>
       apply inv_gate x _ h
-      apply inv_clientGate x _ h _ (hpre.imp id (fun f => f rfl))
+      apply inv_clientGate x _ h
       intro _
       unfold clientStanza
       split <;> exact h
@@ -1205,7 +1157,7 @@ theorem servInv_init (cfg : Cfg) : ServInv cfg [] init := by
   exact ConnInv.of_no_pending rfl (fun h => absurd rfl h) (fun s hs => by cases hs)
 
 theorem servInv_step (cfg : Cfg) (hist : List (Nat × Ev)) (s : Server) (op : Nat × Ev)
-    (hinv : ServInv cfg hist s) (hpre : PreauthSafe cfg s op) (hrep : ReplySafe cfg s op) :
+    (hinv : ServInv cfg hist s) :
     ServInv cfg (hist ++ [op]) (step cfg s op).1 := by
   intro c
   have hmono : ConnInv cfg (Approved cfg (hist ++ [op]) c) (Sent (hist ++ [op]) c) (s.conns c) :=
@@ -1215,7 +1167,7 @@ theorem servInv_step (cfg : Cfg) (hist : List (Nat × Ev)) (s : Server) (op : Na
   by_cases hcop : c = op.1
   · rw [hc.1 hcop]
     subst hcop
-    apply inv_connStep _ _ _ hmono hpre hrep
+    apply inv_connStep _ _ _ hmono
     · intro p hp
       exact ⟨op.2, by simp, hp⟩
     · exact fun u p => approved_of_creds u p
@@ -1225,26 +1177,16 @@ theorem servInv_step (cfg : Cfg) (hist : List (Nat × Ev)) (s : Server) (op : Na
     · rw [h]; exact ConnInv.of_closed rfl hmono.jid_ok
 
 theorem servInv_run (cfg : Cfg) : ∀ (ops : List (Nat × Ev)) (hist : List (Nat × Ev)) (s : Server),
-    ServInv cfg hist s → Along cfg (fun s op => PreauthSafe cfg s op ∧ ReplySafe cfg s op) s ops →
+    ServInv cfg hist s →
     ServInv cfg (hist ++ ops) (run cfg s ops).1 := by
   intro ops
   induction ops with
-  | nil => intro hist s h _; simpa [run] using h
+  | nil => intro hist s h; simpa [run] using h
   | cons op ops ih =>
-    intro hist s h hal
-    have h1 := servInv_step cfg hist s op h hal.1.1 hal.1.2
-    have h2 := ih (hist ++ [op]) _ h1 hal.2
+    intro hist s h
+    have h1 := servInv_step cfg hist s op h
+    have h2 := ih (hist ++ [op]) _ h1
     simpa [run, List.append_assoc] using h2
-
-/-- with both fixes applied every script is safe -/
-theorem along_of_fixed (cfg : Cfg) (P : Server → Nat × Ev → Prop) (hP : ∀ s op, P s op) :
-    ∀ (ops : List (Nat × Ev)) (s : Server), Along cfg P s ops := by
-  intro ops
-  induction ops with
-  | nil => intro s; trivial
-  | cons op ops ih => intro s; exact ⟨hP s op, ih _⟩
-
-
 
 /-! ### where routed / delivered / answered stanzas come from -/
 
@@ -1340,30 +1282,12 @@ theorem step_stanza_origin (cfg : Cfg) (s : Server) (op : Nat × Ev) (o : Out) (
     exact key st0 h2 h1 hto.symm
 
 
-/-- under the pre-authentication safety condition a connection only emits stanzas once it has a jid -/
+/-- a connection only emits stanzas once it has a jid -/
 theorem connStep_emit_jid_ne (cfg : Cfg) (fresh : List Char) (x : Conn) (ev : Ev) (st : Stanza)
-    (hsafe : cfg.fixPreauth = true ∨ (isClientStanza ev = true → x.jid ≠ []))
     (h : COut.emit st ∈ (connStep cfg fresh x ev).outs) : x.jid ≠ [] := by
-  rcases shape_connStep cfg fresh x ev hsafe with hq | ha | hj
+  rcases shape_connStep cfg fresh x ev with hq | ha | hj
   · exact absurd h (not_emit_of_quiet hq st)
   · exact absurd h (not_emit_of_authHead ha st)
   · exact hj
-
-/-! ### decidability of the safety conditions (so that concrete scripts can be checked by evaluation) -/
-
-instance (cfg : Cfg) (s : Server) (op : Nat × Ev) : Decidable (PreauthSafe cfg s op) := by
-  unfold PreauthSafe; exact inferInstance
-
-instance (cfg : Cfg) (s : Server) (op : Nat × Ev) : Decidable (ReplySafe cfg s op) := by
-  unfold ReplySafe; exact inferInstance
-
-instance alongDecidable (cfg : Cfg) (P : Server → Nat × Ev → Prop) [∀ s op, Decidable (P s op)] :
-    ∀ (s : Server) (ops : List (Nat × Ev)), Decidable (Along cfg P s ops)
-  | _, [] => isTrue trivial
-  | s, op :: ops =>
-    match (inferInstance : Decidable (P s op)), alongDecidable cfg P (step cfg s op).1 ops with
-    | isTrue h1, isTrue h2 => isTrue ⟨h1, h2⟩
-    | isFalse h1, _ => isFalse fun h => h1 h.1
-    | _, isFalse h2 => isFalse fun h => h2 h.2
 
 end Qx.C16
